@@ -370,6 +370,212 @@ def exhaustive_case(inp):
     return None
 
 
+# ------------------------------------------------------------------ (H3/H4) registers with two-digit indices
+def _forced_move(solver, name, circ, choices, gate_seed):
+    """run the real move with its np.random.randint outcomes forced to `choices` (missing ones: 0); -> [(choice, range)]"""
+    import warnings
+    import graphiq.solvers.evolutionary_solver as es
+
+    ch = _Chooser(choices)
+    real_np = es.np
+    es.np = _NpProxy(real_np, _ScriptedRandom(ch, np.random.default_rng(gate_seed)))
+    try:
+        with warnings.catch_warnings():
+            warnings.simplefilter("ignore")
+            getattr(solver, name)(circ)
+    finally:
+        es.np = real_np
+    return ch.trace
+
+
+def _wire_snapshot(circ):
+    """(symptom, {(t, r): [(node, class, wrapper gate names)]}) read by the independent wire walker"""
+    bad, w = wires(circ)
+    if bad:
+        return bad, None
+    out = {}
+    for key, seq in w.items():
+        row = []
+        for node in seq:
+            op = circ.dag.nodes[node]["op"]
+            row.append((node, type(op).__name__, tuple(g.__name__ for g in getattr(op, "operations", []) or [])))
+        out[key] = row
+    return None, out
+
+
+def _ops_on_their_wires(circ):
+    """every op's registers equal the wires it sits on; every edge (quantum AND classical) carries the reg / reg_type of
+    the wire its key names; edge_dict / node_dict (the indexes the moves pick from) agree with the graph"""
+    dag = circ.dag
+    for u, v, k, a in dag.edges(keys=True, data=True):
+        if a.get("reg_type") != k[0] or a.get("reg") != int(k[1:]):
+            return f"edge {(u, v, k)} carries reg_type/reg {a.get('reg_type')}/{a.get('reg')}"
+    have = {t: sorted(map(str, es_)) for t, es_ in circ.edge_dict.items()}
+    want = {}
+    for u, v, k in dag.edges(keys=True):
+        want.setdefault(k[0], []).append(str((u, v, k)))
+    for t in set(have) | set(want):
+        if sorted(want.get(t, [])) != have.get(t, []):
+            return f"edge_dict[{t!r}] disagrees with the graph"
+    for node in dag.nodes:
+        op = dag.nodes[node]["op"]
+        nm = type(op).__name__
+        if nm in ("Input", "Output"):
+            if f"{op.reg_type}{op.register}_{'in' if nm == 'Input' else 'out'}" != node:
+                return f"node {node} carries {nm}({op.reg_type}{op.register})"
+            continue
+        for lab in set(op.labels) | {nm, op.parse_q_reg_types()}:
+            if node not in circ.node_dict.get(lab, []):
+                return f"node {node} ({nm}) is missing from node_dict[{lab!r}]"
+    for lab, nodes in circ.node_dict.items():
+        for node in nodes:
+            if node not in dag.nodes:
+                return f"node_dict[{lab!r}] lists the removed node {node}"
+    return None
+
+
+def _guided_sample(solver, name, circ, k, hot, rng):
+    """which 32 of the k > 48 position choices are tried.  Only a HINT for the sampling (never part of the verdict): the
+    two-qubit moves draw an index into the list returned by the solver's own _select_possible_*_position helper, whose
+    edge keys tell which wires an index would touch; indices on wires with index >= 10 are preferred."""
+    picked = {0, k - 1}
+    try:
+        helper = {"add_emitter_cnot": "_select_possible_cnot_position",
+                  "add_measurement_cnot_and_reset": "_select_possible_measurement_position"}[name]
+        pairs = getattr(solver, helper)(circ)
+        if len(pairs) != k:
+            raise ValueError
+        keys = [{(e[2][0], int(e[2][1:])) for e in pair} for pair in pairs]
+        hot_idx = [i for i, ks in enumerate(keys) if ks & hot]
+        high_idx = [i for i, ks in enumerate(keys) if any(r >= 10 for _, r in ks)]
+        for pool, cnt in ((hot_idx, 12), (high_idx, 10)):
+            if pool:
+                picked |= set(int(x) for x in rng.choice(pool, size=min(cnt, len(pool)), replace=False))
+    except Exception:  # noqa: BLE001 - no hint available: plain seeded sample
+        pass
+    rest = [i for i in range(k) if i not in picked]
+    need = max(0, 32 - len(picked))
+    if need and rest:
+        picked |= set(int(x) for x in rng.choice(rest, size=min(need, len(rest)), replace=False))
+    return sorted(picked)
+
+
+GUIDED_SCRIPT = [
+    "add_measurement_cnot_and_reset", "add_emitter_one_qubit_op", "add_emitter_cnot", "remove_op", "add_photon_one_qubit_op",
+    "add_measurement_cnot_and_reset", "remove_op", "add_measurement_cnot_and_reset", "replace_photon_one_qubit_op", "remove_op",
+    "add_emitter_one_qubit_op", "replace_emitter_one_qubit_op", "add_emitter_cnot", "remove_op", "add_emitter_cnot",
+    "add_photon_one_qubit_op", "remove_op", "remove_op", "add_measurement_cnot_and_reset", "add_emitter_one_qubit_op",
+]
+
+
+@S.item(
+    "moves.two_digit_registers",
+    site=ES + "{" + ", ".join(MOVES) + "} / graphiq.circuit.circuit_dag:CircuitDAG._remove_node, _insert_at",
+    bound="initial circuits with >= 11 photons and/or >= 11 emitters: EvolutionarySolver.initialization for (n_e,n_p) in "
+    "{(1,13),(2,12),(3,13),(11,12),(12,13)} and TimeReversedSolver outputs for path(12), star(11), cycle(12), ladder(12), "
+    "K_{4,7}, grid 3x4 (thorough: and 6 fixed pseudo-random graphs on 11..13 vertices; all TRS inputs are a fixed sample, seed-"
+    "independent - the deterministic solver with >= 5 emitters runs through stabilizer.inverse_circuit, known finding C11-F1); three windows (12 moves, thorough 36) of a fixed script of 20 moves in which removals are "
+    "followed by additions; at EVERY step every outcome of the move's np.random.randint position choice (all if <= 48, else 32 "
+    "seeded ones incl. first and last, preferring wires with index >= 10) is applied to a copy and EmitInv + op/wire/edge-attribute/index agreement checked, then the "
+    "outcome that touches the wire touched by the previous move and has index >= 10 (else any wire with index >= 10) is applied to "
+    "the circuit itself (same object through the whole history)",
+    clause="every circuit obtained by any sequence of mutation moves (registers with index >= 10; remove followed by add on the "
+    "same wire)",
+)
+def guided_case(inp):
+    return _guided(inp, {})
+
+
+def _guided(inp, stats):
+    """stats (dev-time only): number of moves that reached a wire with index >= 10 / removals followed by an addition there"""
+    solver, circ = _solver_for(inp["init"])
+    if circ is None:
+        circ = initial_circuit(solver, inp["init"])
+    prot = protected_nodes(circ)
+    bad = emit_inv(circ, prot) or _ops_on_their_wires(circ)
+    if bad:
+        return f"initial circuit: {bad}"
+    rng = np.random.default_rng([inp["seed"], 404])
+    hot = set()
+    trail = []
+    n_high = 0
+    for step in range(inp["length"]):
+        name = GUIDED_SCRIPT[(step + inp.get("offset", 0)) % len(GUIDED_SCRIPT)]
+        bad, before = _wire_snapshot(circ)
+        if bad:
+            return f"before move #{step}: {bad}"
+        probe = circ.copy()
+        trace = _forced_move(solver, name, probe, [], inp["seed"] + step)
+        if len(trace) > 1:
+            return f"move {name} draws {len(trace)} positions (harness assumes one)"
+        k = trace[0][1] if trace else 1
+        if k <= 48:
+            cands = list(range(k))
+        else:
+            cands = _guided_sample(solver, name, circ, k, hot, rng)
+        scored = []
+        for c in cands:
+            trial = circ.copy()
+            _forced_move(solver, name, trial, [c], inp["seed"] + step)
+            bad = emit_inv(trial, prot) or _ops_on_their_wires(trial)
+            if bad:
+                return f"after move #{step} {name} with position choice {c} of {k} (previous: {trail[-5:]}): {bad}"
+            _, after = _wire_snapshot(trial)
+            touched = {key for key in before if before[key] != after[key]}
+            high = {key for key in touched if key[1] >= 10}
+            scored.append((2 if high & hot else 1 if high else 0, c, touched))
+        best = max(sc for sc, _, _ in scored)
+        pool = [(c, t) for sc, c, t in scored if sc == best]
+        c, touched = pool[int(rng.integers(len(pool)))]
+        _forced_move(solver, name, circ, [c], inp["seed"] + step)
+        trail.append((name, c, sorted(f"{t}{r}" for t, r in touched)))
+        bad = emit_inv(circ, prot) or _ops_on_their_wires(circ)
+        if bad:
+            return f"after move #{step} {name} with position choice {c} of {k} on the circuit itself (previous: {trail[-6:-1]}): {bad}"
+        _, now = _wire_snapshot(circ)
+        real_touched = {key for key in before if before[key] != now[key]}
+        if real_touched != touched:
+            return f"move #{step} {name} (choice {c}) touched wires {sorted(real_touched)} on the circuit and {sorted(touched)} on its copy"
+        hot = {key for key in touched if key[1] >= 10} or hot
+        n_high += bool(best)
+    stats["high"] = n_high
+    stats["trail"] = trail
+    return None
+
+
+@S.item(
+    "moves.random_history_two_digit",
+    site=ES + "{" + ", ".join(MOVES) + "}",
+    bound="seeded histories of the 7 real move methods (uniformly drawn, real np.random) from initialization circuits with "
+    "(n_e,n_p) in {(2,12),(3,13),(11,12),(12,11)}: quick 12 histories x 80 moves, thorough 60 x 150; EmitInv and op/wire/edge-"
+    "attribute/index agreement after EVERY move",
+    clause="every circuit obtained by any sequence of mutation moves (registers with index >= 10)",
+)
+def history_hi_case(inp):
+    import warnings
+
+    solver, circ = _solver_for(inp["init"])
+    if circ is None:
+        circ = initial_circuit(solver, inp["init"])
+    prot = protected_nodes(circ)
+    bad = emit_inv(circ, prot) or _ops_on_their_wires(circ)
+    if bad:
+        return f"initial circuit: {bad}"
+    rng = np.random.default_rng(inp["seed"])
+    np.random.seed(inp["seed"])
+    trail = []
+    for step in range(inp["length"]):
+        name = MOVES[int(rng.integers(len(MOVES)))]
+        trail.append(name)
+        with warnings.catch_warnings():
+            warnings.simplefilter("ignore")
+            getattr(solver, name)(circ)
+        bad = emit_inv(circ, prot) or _ops_on_their_wires(circ)
+        if bad:
+            return f"after move #{step} ({name}; previous: {trail[-6:-1]}): {bad}"
+    return None
+
+
 def _monitored(solver, log):
     """wrap the solver's move methods so that EmitInv is checked on the mutated circuit after every call.  The set of
     operations placed at initialisation is attached to the circuit object when a move first sees it (before the move);
@@ -502,6 +708,91 @@ def hybrid_case(inp):
 
 
 @S.item(
+    "evolutionary.solve_from_user_circuit",
+    site=ES + "population_initialization / solve (circuit= supplied by the caller)",
+    bound="EvolutionarySolver constructed with a start circuit (the TimeReversedSolver output for path(4), star(4), cycle(5), "
+    "K4 minus an edge) and n_pop=4, n_stop=5, np.random seeds 0 and VERIF_SEED+1: population_initialization() twice and solve() "
+    "twice on the SAME solver object, every move monitored with EmitInv; every population member / hof member / result keeps the "
+    "start circuit's emission CNOTs and measure-and-reset operations; population members are distinct objects and the caller's "
+    "circuit is unchanged afterwards (wire by wire, same nodes, same op classes)",
+    clause="every circuit obtained from an initial solver circuit (user-supplied start circuit, n_pop > 1, seed 0 and non-zero)",
+)
+def user_circuit_case(inp):
+    import warnings
+    import bounded.C02 as C02
+    from graphiq.solvers.evolutionary_solver import EvolutionarySolver, EvolutionarySolverSetting
+    from graphiq.backends.stabilizer.compiler import StabilizerCompiler
+    from graphiq.metrics import Infidelity
+
+    base = {"n": inp["n"], "edges": inp["edges"], "rep": "g", "comp": "stab"}
+    _, _, start, _ = C02.run_solver(base)
+    bad, snap0 = _wire_snapshot(start)
+    if bad:
+        return f"start circuit: {bad}"
+    want = sorted(protected_nodes(start).values())
+    target, _ = C02.build_target(dict(base, rep="s"))
+    comp = StabilizerCompiler()
+    comp.measurement_determinism = 1
+    setting = EvolutionarySolverSetting(n_hof=3, n_stop=5, n_pop=4, selection_active=bool(inp["selection"]))
+    solver = EvolutionarySolver(target=target, metric=Infidelity(target), compiler=comp, circuit=start,
+                                n_emitter=start.n_emitters, n_photon=start.n_photons, solver_setting=setting)
+    log = []
+    _monitored(solver, log)
+
+    def members_ok(what, circs):
+        for k, circ in enumerate(circs):
+            b = emit_inv(circ) or _ops_on_their_wires(circ)
+            if b:
+                return f"{what}[{k}]: {b}"
+            have = sorted(protected_nodes(circ).values())
+            for sig in want:
+                if have.count(sig) < want.count(sig):
+                    return f"{what}[{k}] lost the start circuit's {sig[0]} on {sig[1]}"
+        return None
+
+    def caller_unchanged(when):
+        b, snap = _wire_snapshot(start)
+        if b or snap != snap0:
+            return f"{when}: the caller's start circuit was modified ({b or 'operations on its wires changed'})"
+        return None
+
+    with warnings.catch_warnings():
+        warnings.simplefilter("ignore")
+        for rnd in (1, 2):
+            solver.seed(inp["seed"] + rnd - 1)
+            pop = solver.population_initialization()
+            circs = [c for _, c in pop]
+            if len(circs) != 4:
+                return f"population of {len(circs)} members, n_pop = 4"
+            if len({id(c) for c in circs}) != 4 or any(c is start for c in circs):
+                return f"population_initialization #{rnd}: members share one circuit object (or are the caller's circuit)"
+            b = members_ok(f"population #{rnd}", circs)
+            if b:
+                return b
+            # a move on one member must not show in another member or in the caller's circuit
+            solver.add_emitter_one_qubit_op(circs[0])
+            _, s1 = _wire_snapshot(circs[1])
+            if s1 != snap0:
+                return f"population_initialization #{rnd}: a move on member 0 changed member 1"
+            b = caller_unchanged(f"after a move on a population member (#{rnd})")
+            if b:
+                return b
+            # solve() leaves its logs behind as DataFrames (logs_to_df) and cannot append to them again: the harness puts
+            # the log lists back to their constructor state; hall of fame and every other solver attribute persist
+            solver.logs = {"population": [], "hof": []}
+            solver.solve()
+            if log:
+                return f"solve #{rnd}: " + "; ".join(log)
+            b = members_ok(f"hof (solve #{rnd})", [c for _, c in solver.hof]) or members_ok(f"result (solve #{rnd})", [solver.result[1]])
+            if b:
+                return b
+            b = caller_unchanged(f"after solve #{rnd}")
+            if b:
+                return b
+    return None
+
+
+@S.item(
     "time_reversed.output",
     site="graphiq.solvers.time_reversed_solver:TimeReversedSolver.solve",
     bound="all labelled graphs without isolated vertex n<=4 (thorough n<=5 and 1500 seeded graphs on 6..7 vertices), graph input",
@@ -529,7 +820,8 @@ ATS_METHODS = [None, "random", "random_with_iso", "random_with_rep", "lc_with_is
     site="graphiq.solvers.alternate_target_solver:AlternateTargetSolver.solve / graph_to_circ",
     bound="connected graphs on 3..4 (quick: all on 3, 12 seeded on 4; thorough: all on 3..4, 60 seeded on 5) vertices x lc_method in "
     "{None, random, random_with_iso, random_with_rep, lc_with_iso, depth_first; linear on path graphs; rgs on the repeater "
-    "graphs with 4 and 6 vertices} x (n_iso, n_lc) in {(1,1),(2,3)}; every circuit in the returned result list",
+    "graphs with 4 and 6 vertices} x (n_iso, n_lc) in {(1,1),(2,3)}, plus (n_iso, n_lc, lc_orbit_depth) = (3,4,2) for {None, "
+    "random_with_iso, lc_with_iso} on all connected 3-vertex and 4 (thorough 12) 4-vertex graphs; every circuit in the returned result list",
     clause="every circuit produced by the alternate-target solver",
 )
 def ats_case(inp):
@@ -542,7 +834,8 @@ def ats_case(inp):
     g = nx.Graph()
     g.add_nodes_from(range(inp["n"]))
     g.add_edges_from([tuple(e) for e in inp["edges"]])
-    setting = AlternateTargetSolverSetting(n_iso_graphs=inp["n_iso"], n_lc_graphs=inp["n_lc"], lc_method=inp["lc_method"])
+    kw = {"lc_orbit_depth": inp["depth"]} if "depth" in inp else {}
+    setting = AlternateTargetSolverSetting(n_iso_graphs=inp["n_iso"], n_lc_graphs=inp["n_lc"], lc_method=inp["lc_method"], **kw)
     np.random.seed(inp["seed"])
     with warnings.catch_warnings():
         warnings.simplefilter("ignore")
@@ -619,6 +912,39 @@ def run(tier, seed):
         hist.append({"init": init, "seed": seed * 100000 + h, "length": length})
     S.map("moves.random_history", hist, chunksize=1)
 
+    # (H3/H4) >= 11 photons / emitters: guided histories (remove followed by add on wires with index >= 10)
+    import networkx as nx
+
+    hi_inits = []
+    for n_e, n_p in [(1, 13), (2, 12), (3, 13), (11, 12), (12, 13)]:
+        hi_inits.append({"kind": "init", "emit": [(n_p - 1 - i) % n_e for i in range(n_p)], "meas": [(n_p - 1 - 2 * j) % n_p for j in range(n_e)]})
+    named = [nx.path_graph(12), nx.star_graph(10), nx.cycle_graph(12), nx.ladder_graph(6), nx.complete_bipartite_graph(4, 7),
+             nx.convert_node_labels_to_integers(nx.grid_2d_graph(3, 4))]
+    for g in named:
+        hi_inits.append({"kind": "trs", "n": g.number_of_nodes(), "edges": sorted([min(a, b), max(a, b)] for a, b in g.edges())})
+    rng_hi = np.random.default_rng([seed, 4040])
+    # fixed sample, seed-independent: the deterministic solver on graphs with >= 5 emitters goes through
+    # stabilizer.inverse_circuit (known finding C11-F1 concerns some states with n >= 5); these 6 graphs were checked to pass
+    rng_fix = np.random.default_rng(4040)
+    for _ in range(6 if thorough else 0):
+        n = int(rng_fix.integers(11, 14))
+        while True:
+            A = np.triu((rng_fix.random((n, n)) < 0.25).astype(int), 1)
+            edges = [[i, j] for i in range(n) for j in range(i + 1, n) if A[i, j]]
+            if not C02._has_isolated(n, edges):
+                break
+        hi_inits.append({"kind": "trs", "n": n, "edges": edges})
+    # three windows of the script per initial circuit (>= 32 inputs, so that the pool is used)
+    S.map("moves.two_digit_registers",
+          [{"init": it, "seed": seed * 1000 + 10 * k + j, "length": 36 if thorough else 12, "offset": off}
+           for k, it in enumerate(hi_inits) for j, off in enumerate((0, 4, 10))], chunksize=1)
+    hh = []
+    for h in range(60 if thorough else 12):
+        n_e, n_p = [(2, 12), (3, 13), (11, 12), (12, 11)][h % 4]
+        hh.append({"init": {"kind": "init", "emit": rng_hi.integers(0, n_e, size=n_p).tolist(), "meas": rng_hi.integers(0, n_p, size=n_e).tolist()},
+                   "seed": seed * 100000 + 7000 + h, "length": 150 if thorough else 80})
+    S.map("moves.random_history_two_digit", hh, procs=int(__import__("os").environ.get("VERIF_PROCS", "16")), chunksize=1)
+
     # exhaustive short sequences
     ex = []
     L = 3 if thorough else 2
@@ -636,6 +962,11 @@ def run(tier, seed):
             evo.append({"ne": n_e, "np": n_p, "seed": seed * 100 + s, "n_stop": 30 if thorough else 12, "selection": s % 2, "with_mcr": (s // 2) % 2 == 0})
     S.map("evolutionary.solve_monitored", evo, procs=int(__import__("os").environ.get("VERIF_PROCS", "16")), chunksize=1)
 
+    ug = [(4, [[0, 1], [1, 2], [2, 3]]), (4, [[0, 1], [0, 2], [0, 3]]), (5, [[0, 1], [1, 2], [2, 3], [3, 4], [0, 4]]),
+          (4, [[0, 1], [0, 2], [0, 3], [1, 2], [1, 3]])]
+    S.map("evolutionary.solve_from_user_circuit",
+          [{"n": n, "edges": e, "seed": sd, "selection": k % 2} for k, (n, e) in enumerate(ug) for sd in (0, seed + 1)])
+
     graphs = [{"n": n, "edges": e} for n in range(2, 5) for e in C02._graphs(n) if not C02._has_isolated(n, e)]
     hyb = [dict(g, seed=seed * 100 + s, n_stop=10 if thorough else 4) for g in graphs for s in range(5 if thorough else 1)]
     S.map("hybrid.population_and_solve", hyb, chunksize=1)
@@ -649,6 +980,11 @@ def run(tier, seed):
             if not C02._has_isolated(n, edges):
                 trs.append({"n": n, "edges": edges})
     S.map("time_reversed.output", trs)
+    S.note(
+        "evolutionary.solve_from_user_circuit: a second solve() on one EvolutionarySolver raises AttributeError ('DataFrame' object "
+        "has no attribute 'append') because logs_to_df() replaced the log lists; not part of C04's statement - the harness resets "
+        "solver.logs between the two runs"
+    )
 
     ats = []
     for n in range(3, (6 if thorough else 5)):
@@ -663,6 +999,14 @@ def run(tier, seed):
                     continue  # linear_partial_orbit is specified for linear cluster states only
                 for (ni, nl) in ((1, 1), (2, 3)):
                     ats.append({"n": n, "edges": e, "lc_method": m, "n_iso": ni, "n_lc": nl, "seed": seed + 1})
+    # (H6) non-default settings: n_iso_graphs = 3, orbit depth 2 (with_iso=True inside the *_with_iso methods)
+    for n in (3, 4):
+        conn = [e for e in C02._graphs(n) if _connected(n, e)]
+        if n == 4:
+            conn = conn[:: max(1, len(conn) // (12 if thorough else 4))]
+        for e in conn:
+            for m in (None, "random_with_iso", "lc_with_iso"):
+                ats.append({"n": n, "edges": e, "lc_method": m, "n_iso": 3, "n_lc": 4, "depth": 2, "seed": seed + 2})
     for k in (2, 3):  # repeater graph states (the only inputs rgs_orbit_finder is specified for)
         e = [[2 * i, 2 * i + 1] for i in range(k)] + [[2 * i + 1, 2 * j + 1] for i in range(k) for j in range(i + 1, k)]
         for (ni, nl) in ((1, 1), (2, 3)):
